@@ -212,6 +212,10 @@ def cases(ctx, idm):
         mk("mark/unassigned-id", f5, {"k": "mark", "id": 99, "term": "T1", "size": 9, "time": clk.next(), "desc": None})
         mk("unmark", f5 + marks, {"k": "unmark", "id": marks[0]["id"], "term": marks[0]["term"]})
         mk("cleanup_uploads", f5 + marks, {"k": "cleanuploads", "n": rng.choice([0, 1, 2])})
+        if rep == 0:
+            # a backlog far above the limit (hundreds of stale records): still one atomic step
+            backlog = [{"k": "mark", "id": f5[j % 6]["id"], "term": f"B{j // 6}", "size": 1 + j % 7, "time": clk.next(), "desc": None} for j in range(6 * rng.choice([88, 95, 180]))]
+            mk("cleanup_uploads/backlog", f5 + backlog, {"k": "cleanuploads", "n": rng.choice([0, 1, 2, 20])})
         mk("needs", f5 + marks, {"k": "needs", "id": marks[0]["id"], "term": marks[0]["term"], "now": clk.next(), "nmax": 2, "bmax": 50, "tmax": 3600 * 10**6})
         mk("upinfo", f5 + marks, {"k": "upinfo", "id": marks[0]["id"], "term": marks[0]["term"]})
         mk("countall", f5, {"k": "countall", "sub": Sub(0, 256)})
